@@ -590,6 +590,11 @@ def r5(ctx):
                     text_="Fiber.%s %s form" % (mname, "fiber" if fiber_form else "scalar"))
             continue
         it = loops[0].iter
+        if isinstance(it, ast.Name):
+            it = pat.single_def(ctx, f, it) or it
+        if isinstance(it, ast.Call) and text(it.func) == "iter" and len(it.args) == 1 \
+                and not it.keywords:
+            it = it.args[0]         # iter(x) iterates x
         got = None
         if isinstance(it, ast.BinOp):
             got = "BinOp:" + {ast.BitOr: "|", ast.BitAnd: "&", ast.LShift: "<<",
